@@ -54,6 +54,35 @@ def clusterCentres (raw : List (Pt α)) (u pos : Pt α) : List (Pt α) :=
 
 /-- vertices of cell `i` of a cluster: every cell has the cluster's radius and rotation -/
 def cellVerts (base : List (Pt α)) (u : Pt α) (centre : Pt α) : List (Pt α) := place centre u base
+
+/-! ### the class-level cache `Cluster._normalized_cell_positions`
+
+`_calc_cell_positions_hexagon` keeps, per *number of cells* (an exact integer key), the positions of
+the cluster of unit radius; a later cluster of the same size multiplies the stored positions by
+ITS OWN radius (into a new array) and rotates the product.  The cache is explicit here so that
+"a cluster built after any other clusters is the cluster computed from scratch" is a statement. -/
+
+/-- the dictionary: `num_cells ↦ ` unit-radius positions -/
+abbrev NormCache (α : Type) := List (Nat × List (Pt α))
+
+/-- what the `if num_cells not in Cluster._normalized_cell_positions` block computes -/
+def normPositions (n : Nat) : List (Pt α) := (List.range n).map hexNorm
+
+/-- `_calc_cell_positions_hexagon(cell_radius, num_cells)` before rotation: look the key
+    `num_cells` up, compute and store the unit-radius positions when it is absent, return
+    `cache[num_cells] * cell_radius` (a new array: the cache entry is not modified) -/
+def hexRawCached (c : NormCache α) (R : α) (n : Nat) : NormCache α × List (Pt α) :=
+  match c.lookup n with
+  | some l => (c, l.map (smul R))
+  | none => ((n, normPositions n) :: c, (normPositions n).map (smul R))
+
+/-- clusters `(num_cells, cell_radius, exp(j·rotation), pos)` constructed one after the other in
+    one process: the centres of each, the cache threaded through -/
+def clusterSeq (c : NormCache α) : List (Nat × α × Pt α × Pt α) → List (List (Pt α))
+  | [] => []
+  | (n, R, u, pos) :: rest =>
+    let cr := hexRawCached c R n
+    clusterCentres cr.2 u pos :: clusterSeq cr.1 rest
 end layout
 
 section squarecell
